@@ -126,9 +126,11 @@ const preludeDecls = `(declare-datatypes ((Slice 0)) (((mk_slice (s_base Int) (s
 (declare-fun seq_sub (Int Int Int) Int)
 (declare-fun seq_at (Int Int) Int)
 (declare-const seq_empty Int)
+(declare-fun trig (Int) Bool)
 `
 
 var preludeAxioms = []struct{ sym, text string }{
+	{"trig", "(assert (forall ((x Int)) (! (trig x) :pattern ((trig x)))))"},
 	// byte sequences (abstract content of []byte values): uninterpreted ids with
 	// length/concatenation/sub-sequence axioms; no associativity (layouts are
 	// proved through the sub projections)
@@ -474,6 +476,9 @@ func (vc *VC) look(st *State, name string) string {
 	}
 	if !vc.declared[s] {
 		vc.declare(s, sort)
+		if name == "$escaped" && st.epoch == 0 {
+			vc.emit(fmt.Sprintf("(assert (= %s ((as const %s) false)))", s, sort))
+		}
 		if strings.HasPrefix(name, "W!") && st.epoch == 0 {
 			// nothing has been assigned at function entry
 			vc.emit(fmt.Sprintf("(assert (= %s ((as const %s) false)))", s, sort))
@@ -811,12 +816,39 @@ func (vc *VC) globalRef(pkgPath, name string) string {
 // forgotten; fields of module struct types, module globals, maps and ghost
 // state are kept (assumption lib-frame, listed in the evidence).
 func (vc *VC) havocLib(st *State) {
+	alloc0 := vc.look(vc.entry, "$alloc")
+	esc := ""
+	if _, ok := vc.hsort["$escaped"]; ok {
+		esc = vc.look(st, "$escaped")
+	}
 	for _, v := range sortedKeys(vc.hsort) {
 		if ((strings.HasPrefix(v, "E!") || strings.HasPrefix(v, "C!")) && !vc.modElem[v]) || vc.libVars[v] {
+			old := vc.look(st, v)
 			vc.havocVar(st, v)
+			if strings.HasPrefix(v, "E!") {
+				// backing arrays allocated by this function and never handed to a
+				// library call keep their contents (a library cannot reach them)
+				nw := vc.look(st, v)
+				cond := fmt.Sprintf("(> b %s)", alloc0)
+				if esc != "" {
+					cond = fmt.Sprintf("(and (> b %s) (not (select %s b)))", alloc0, esc)
+				}
+				vc.emit(fmt.Sprintf("(assert (forall ((b Int)) (! (=> %s (= (select %s b) (select %s b))) :pattern ((select %s b)))))", cond, nw, old, nw))
+			}
 		}
 	}
 	vc.havocVar(st, "$alloc")
+}
+
+// markEscaped records that the backing array of a slice was handed to code
+// without a precise contract.
+func (vc *VC) markEscaped(st *State, slice string) {
+	hv := "$escaped"
+	if _, ok := vc.hsort[hv]; !ok {
+		vc.hsort[hv] = "(Array Int Bool)"
+	}
+	cur := vc.look(st, hv)
+	vc.set(st, hv, "(Array Int Bool)", fmt.Sprintf("(store %s (s_base %s) true)", cur, slice))
 }
 
 func (vc *VC) typingFact(f string) {
@@ -854,4 +886,14 @@ func (vc *VC) constGlobalTerm(pkgPath, name, sort string) string {
 		return fmt.Sprintf("(mk_iface (+ 900000 (- %s)) %s)", ref, ref)
 	}
 	return ref
+}
+
+// slAt: element access function used inside quantified contract clauses.
+func (vc *VC) slAt(sort string) string {
+	fn := sym("sl_at!" + sort)
+	if !vc.declared[fn] {
+		vc.declareFun(fn, []string{"(Array Int " + sort + ")", "Int", "Int"}, sort)
+		vc.emit(fmt.Sprintf("(assert (forall ((r (Array Int %s)) (o Int) (i Int)) (! (= (%s r o i) (select r (+ o i))) :pattern ((%s r o i)))))", sort, fn, fn))
+	}
+	return fn
 }
